@@ -364,6 +364,58 @@ func (e c01Effect) callerRecv(x ast.Expr, method string) *types.Var {
 	return cv
 }
 
+// c01ResultsReturning: the result positions of f through which some return statement hands out the
+// variable v (aliases looked through). A position qualifies only when its declared type is v's type,
+// so an error result is never taken for the value; a bare return of a named result counts like the
+// explicit one. The position is found by what is returned there, not by a fixed index.
+func c01ResultsReturning(f *core.FuncInfo, v *types.Var) []int {
+	if f == nil || v == nil || f.Type == nil || f.Type.Results == nil {
+		return nil
+	}
+	var named []*types.Var // per result position; nil entries for unnamed results
+	var typs []types.Type
+	for _, fl := range f.Type.Results.List {
+		t := f.Info().TypeOf(fl.Type)
+		if len(fl.Names) == 0 {
+			named, typs = append(named, nil), append(typs, t)
+			continue
+		}
+		for _, nm := range fl.Names {
+			nv, _ := f.Info().Defs[nm].(*types.Var)
+			named, typs = append(named, nv), append(typs, t)
+		}
+	}
+	hit := make([]bool, len(typs))
+	for _, rp := range f.ReturnPoints() {
+		r, ok := rp.Node().(*ast.ReturnStmt)
+		if !ok {
+			continue
+		}
+		for i := range typs {
+			if typs[i] == nil || !types.Identical(typs[i], v.Type()) {
+				continue
+			}
+			var w *types.Var
+			switch {
+			case len(r.Results) == len(typs):
+				w = canonVar(f, varOf(f, r.Results[i]))
+			case len(r.Results) == 0 && named[i] != nil:
+				w = canonVar(f, named[i])
+			}
+			if w != nil && w == v {
+				hit[i] = true
+			}
+		}
+	}
+	var out []int
+	for i, h := range hit {
+		if h {
+			out = append(out, i)
+		}
+	}
+	return out
+}
+
 // c01ResultVar: the variable that receives result i of the call (the call being the sole right-hand
 // side of an assignment or definition); nil when the result is discarded or the call is used otherwise.
 func c01ResultVar(f *core.FuncInfo, call *ast.CallExpr, i int) *types.Var {
